@@ -39,7 +39,8 @@ Theorem sched_reach pf : forall fuel w ths s qs ord done nl,
   reach pf s -> reach pf (fst (fst (fst (fst (sched fuel w ths s qs ord done nl))))).
 Proof.
   induction fuel as [|f IH]; intros w ths s qs ord done nl R; cbn [sched];
-    destruct (settle s qs ths nl) as [s0 nl0] eqn:ES; pose proof (settle_reach pf qs ths s nl s0 nl0 R ES) as R0.
+    destruct (settle s qs (firsts (ord ++ ths) []) nl) as [s0 nl0] eqn:ES;
+    pose proof (settle_reach pf qs _ s nl s0 nl0 R ES) as R0.
   - exact R0.
   - destruct ord as [|u r]; [exact R0|].
     destruct (pick s0 qs (u :: r) [] w) as [[t s']|] eqn:EP; [|exact R0].
@@ -71,7 +72,9 @@ Proof.
       * apply Z.eqb_eq; exact G1.
       * apply Z.leb_le; lia.
       * apply Z.leb_le; lia.
-      * destruct (Z.ltb_spec (leaves s) 1); [reflexivity|]. cbn. apply Z.leb_le. apply G3. lia.
+      * destruct (Z.ltb_spec (leaves s) 1); [reflexivity|]. cbn. destruct (G3 ltac:(lia)) as [X|X].
+        -- apply Z.leb_le in X. rewrite X. reflexivity.
+        -- rewrite X. apply orb_true_r.
     + destruct A8 as (G1 & G2 & G3). rewrite G1, G2, G3. reflexivity.
   - apply forallb_forall. intros t _. specialize (AT t). unfold tinvA in AT. unfold tinvA_b.
     destruct (pcs s t); try reflexivity.
@@ -150,10 +153,31 @@ Proof.
       apply existsb_In' in E. apply Q3 in E. congruence.
 Qed.
 
+Lemma dtor_pcb_eq p : dtor_pcb p = dtor_pc p. Proof. destruct p; reflexivity. Qed.
+Lemma dtor_okb_eq p : dtor_okb p = dtor_ok p. Proof. destruct p; reflexivity. Qed.
+
+Lemma invD_b_true s ths : InvD s -> invD_b s ths = true.
+Proof.
+  intros (D1 & D1' & D2 & D3 & D4 & D5 & D7). unfold invD_b.
+  repeat (apply andb_true_iff; split).
+  - apply nodupb_true. exact D1.
+  - apply forallb_forall. intros u _. destruct (pc_idle (pcs s u)) eqn:E; cbn [negb].
+    + destruct (existsb (Z.eqb u) (active s)) eqn:X; [|reflexivity]. apply existsb_In' in X. apply D1' in X. congruence.
+    + assert (X : In u (active s)) by (apply D1'; exact E). apply existsb_In' in X. rewrite X. reflexivity.
+  - destruct (disposed s) eqn:Ed; [|reflexivity]. cbn [negb orb]. destruct (D2 eq_refl) as (d & -> & Hok & Hoth).
+    rewrite dtor_okb_eq, Hok. cbn [andb]. apply forallb_forall. intros u _.
+    destruct (Z.eqb_spec u d) as [->|Ne]; [reflexivity|]. rewrite (Hoth u Ne). reflexivity.
+  - destruct (disposed s) eqn:Ed; [reflexivity|]. cbn [orb]. destruct (D3 eq_refl) as [Dl Hnd]. rewrite Dl. cbn [negb andb].
+    apply forallb_forall. intros u _. rewrite dtor_pcb_eq, (Hnd u). reflexivity.
+  - destruct (dleave s) eqn:Ed; [|reflexivity]. cbn [negb orb]. destruct (D4 eq_refl) as [P B]. rewrite P, B. reflexivity.
+  - apply Z.leb_le. exact D5.
+  - apply forallb_forall. intros u _. destruct (pcs s u) eqn:E; try reflexivity. cbn [negb orb]. apply Z.eqb_eq. apply (D7 u E).
+Qed.
+
 Theorem inv_b_true s ths : Inv s -> inv_b s ths = true.
 Proof.
-  intros (A & N & W & Q). unfold inv_b.
-  rewrite (invA_b_true s ths A), (invN_b_true s N), (invW_b_true s ths W), (invQ_b_true s ths Q). reflexivity.
+  intros (A & N & W & Q & D). unfold inv_b.
+  rewrite (invA_b_true s ths A), (invN_b_true s N), (invW_b_true s ths W), (invQ_b_true s ths Q), (invD_b_true s ths D). reflexivity.
 Qed.
 Corollary inv_b_reach pf s ths : reach pf s -> inv_b s ths = true.
 Proof. intros R. apply inv_b_true. eapply inv_reach; eauto. Qed.
@@ -181,3 +205,28 @@ Definition ex_ord : list Z := [7; 7; 7; 9; 9; 9; 9; 9; 8; 8; 8; 9; 9; 9; 9; 9; 1
 Lemma demo_replay :
   firstn 18 (replay false 8 ex_qs ex_ord) = [27; 0; 9; -1; 1; 1; 7; 1; 0; 0; 0; 1; 1; 1; 1; 1; 0; 1].
 Proof. vm_compute. reflexivity. Qed.
+
+(* ---- standing negative tests (audit F8): observation sequences that the per-thread automaton accepts one by one
+   (latent values are existential there) but that are not runs of the global model: the replay must NOT reproduce them ---- *)
+(* a testcancel that returns non-zero with no cancel anywhere *)
+Definition neg1_qs : list (Z * list event) := [ (8, [Uv DVU_CALL OP_TESTCANCEL 0; Uv DVU_RET 1 0]) ].
+(* a worker that skips the body with no cancel anywhere *)
+Definition neg2_qs : list (Z * list event) :=
+  [ (7, [Uv DVU_CALL OP_ASYNC 0; Bv DV_CAS MO_RELAXED OFF_QUEUE 8 0 ex_dq 1; Uv DVU_RET 0 0]);
+    (11, [Bv DV_ADD MO_RELAXED OFF_PERF 4 0 1 1; Gv DV_ADD MO_RELEASE 0 8 4294967292 4; Bv DV_XCHG MO_RELAXED OFF_QUEUE 8 ex_dq 0 1]) ].
+(* a body run by an invocation that began after a cancel had returned *)
+Definition neg3_qs : list (Z * list event) :=
+  [ (6, [Uv DVU_CALL OP_CANCEL 0; Bv DV_OR MO_RELAXED OFF_FLAGS 4 0 1 1; Uv DVU_RET 0 0]);
+    (5, [Uv DVU_CALL OP_DIRECT 0; Uv DVU_CALLOUT_BEGIN 0 0; Uv DVU_CALLOUT_END 0 0; Bv DV_ADD MO_RELAXED OFF_PERF 4 0 1 1;
+         Gv DV_ADD MO_RELEASE 0 8 4294967292 4; Uv DVU_RET 0 0]) ].
+(* an invocation from a queue with no submission at all *)
+Definition neg4_qs : list (Z * list event) :=
+  [ (11, [Uv DVU_CALLOUT_BEGIN 0 0; Uv DVU_CALLOUT_END 0 0; Bv DV_ADD MO_RELAXED OFF_PERF 4 0 1 1;
+          Gv DV_ADD MO_RELEASE 0 8 4294967292 4; Bv DV_XCHG MO_RELAXED OFF_QUEUE 8 0 0 1]) ].
+Lemma negative_replays :
+  conform 8 false [Uv DVU_CALL OP_TESTCANCEL 0; Uv DVU_RET 1 0] = (-1, 1) /\       (* accepted per thread ... *)
+  nth 1 (replay false 8 neg1_qs [8; 8]) 0 = 1 /\                                     (* ... refused by the global model *)
+  nth 1 (replay false 8 neg2_qs [7; 7; 7; 11; 11; 11]) 0 = 3 /\
+  nth 1 (replay false 8 neg3_qs [6; 6; 6; 5; 5; 5; 5; 5; 5]) 0 = 5 /\
+  nth 1 (replay false 8 neg4_qs [11; 11; 11; 11; 11]) 0 = 5.
+Proof. vm_compute. repeat split. Qed.
